@@ -39,7 +39,7 @@ PROPS = {
                        'write the state (state equality in every no-command postcondition). The whole-session conclusion (same output/final state for '
                        'every script) is an induction over these contracts that is argued in DESIGN.md, not machine-checked.',
         'assumptions': ['read_command (Command::read_from) is external: delivers next_cmd(reader) and consumes one command',
-                        'debugger console output is dropped (R4)', 'session-level induction not machine-checked'],
+                        'debugger console output is dropped (R4)', 'session-level induction over arbitrarily long scripts is not machine-checked; whole sessions are enumerated to a bound natively (verif_native_session_transparency, bounded)'],
     },
     'C10': {
         'level': 'proof',
@@ -50,8 +50,8 @@ PROPS = {
                        'and PC outside user space force a pause before anything else. run_command proves the four resuming commands set exactly the '
                        'promised status (step into N stores N-1 with N>=1, step stores PC+1) and are refused at HALT; SignificantInstr::try_from is '
                        'proved equal to the RET/RETS/HALT decoding spec.',
-        'assumptions': ['`step into` count >= 1 is a guarantee of the command parser (cmd_wf; bounded Kani check under C14)',
-                        'composition with C02 across run-loop iterations is argued, not machine-checked'],
+        'assumptions': ['`step into` count >= 1 is a guarantee of the command parser (cmd_wf: assumed in Verus, enumerated to a bound by verif_native_command)',
+                        'composition with C02 across run-loop iterations: lemma_step_into_counts (compose unit) over the per-iteration contracts; whole sessions only to a bound (verif_native_session_step_counts)'],
     },
     'C11': {
         'level': 'proof',
@@ -62,7 +62,7 @@ PROPS = {
                        'invariants and two induction lemmas; check_interrupts is proved to pause (status Wait, remember the address) exactly when the '
                        'PC carries a breakpoint not just paused on, and to re-arm otherwise; next_action consumes a command before Proceed when paused.',
         'assumptions': ['Vec::retain keeps exactly the elements its closure accepts, in order (assume_specification)',
-                        '"fires again next time" is the re-arm contract plus a history argument'],
+                        '"fires again next time" is the re-arm contract per instruction plus a history argument; whole sessions only to a bound (verif_native_session_breakpoint_rearm)'],
     },
     'C12': {
         'level': 'proof',
@@ -75,6 +75,7 @@ PROPS = {
     'C13': {
         'level': 'proof',
         'kani': False,
+        'native': True,
         'explanation': 'expect_userspace_address == in_user; add_address_offset / resolve_pc_offset / resolve_label / resolve_location are proved equal '
                        'to offs_spec/resolve_spec (mathematical sum, accepted iff inside [orig, 0xFE00), no wrap, no overflow); run_command proves '
                        'move writes exactly the named register or user-space word, goto only the PC, break add/remove only an in-user address, and '
@@ -116,12 +117,13 @@ PROPS = {
     'C04': {
         'level': 'proof',
         'kani': True,
+        'native': True,
         'explanation': 'Acceptance is proved as an IFF against the field table: expect_lit (range closure == fits(bits, v) for Signed/Unsigned n), '
                        'parse_instr accepts exactly when every operand is of the right kind and fits (imm5 Signed(5), offset6 Signed(6), PC offsets '
                        'Signed(9/11), trap vector Unsigned(8), .orig Unsigned(16)) and never consumes/keeps anything else; bit_offs/emit reject exactly '
                        'when the 16-bit label distance does not fit the 9/10/11-bit field (never truncated: Kani complete twin + Verus); Air::set_orig '
                        'errors on the second .orig; Label::insert errors iff the key exists; Label::filled/backpatch error iff a referenced label is undefined.',
-        'assumptions': ['token values are what the text denotes (lexer literal range is a bounded Kani check, not proof)',
+        'assumptions': ['token values are what the text denotes: the lexer is not verified deductively; every hex / decimal literal spelling around the 16-bit limits is enumerated natively (verif_native_literals, bounded)',
                         'HashMap<String,_> behaves as a map keyed by string content (SymTab stand-in, R10/R11)'],
     },
     'C05': {
@@ -144,8 +146,9 @@ PROPS = {
         'explanation': 'assemble() (shared by check and watch) is proved to return Ok only if every statement has its labels resolved and enc_spec is '
                        'defined for it, i.e. emission cannot fail afterwards — so a source that check accepts always compiles/runs. Uses the contracts '
                        'of parse, Air::backpatch and AsmLine::emit (emit fails iff enc_spec is None).',
-        'assumptions': ['feature-flag initialisation per subcommand (features::init not called by check/watch) is caller history on a thread-local in '
-                        'main(): NOT decided by this technique (known defect recorded in DESIGN §7)', 'exit codes are process behaviour: not decided'],
+        'assumptions': ['feature-flag initialisation per subcommand is caller history on a thread-local in main(): outside every contract; decided only to a bound at the '
+                        'process level (verif_native_check_cli, verif_native_watch_cli: exit statuses of check / compile / run / watch re-checks; found F23)',
+                        'exit codes of the real binary are compared only on those bounded process-level runs'],
     },
     'C15': {
         'level': 'proof',
